@@ -100,10 +100,11 @@ def load_bytes(data):
     return obj
 
 
-def mutate(obj, op):
+def mutate(obj, op, layout=1):
     """-> label of the slot class mutated"""
+    builder.set_layout(layout)
     if isinstance(obj, Project):
-        out = builder.Session(obj).apply(op["bop"])
+        out = builder.Session(obj, layout=layout).apply(op["bop"])
         return "project:" + out.split(":")[0] + ":" + (out.split(".", 1)[1] if "." in out else "")[:24]
     if isinstance(obj, Pattern):
         if op["s"] % 3 == 0:
@@ -116,7 +117,7 @@ def mutate(obj, op):
         setter(op["v"])
         return "pattern:" + label
     mod = obj.module if isinstance(obj, Synth) else obj
-    slots = builder.module_slots(mod, None, in_project=mod.parent is not None)
+    slots = builder.module_slots(mod, None, in_project=mod.parent is not None, layout=layout)
     # extra in-place writes that bypass every setter (aliasing detectors)
     extra = []
     tname = type(mod).__name__
@@ -139,7 +140,7 @@ def mutate(obj, op):
         extra.append(("mappings[inplace]", mapping_inplace))
 
         def embedded_edit(v):
-            sub = builder.Session(mod.project, depth=1)
+            sub = builder.Session(mod.project, depth=1, layout=layout)
             sub.apply({"k": "mod", "t": v % 1000, "any": False} if v & 1 else op["bop"])
             sub.apply({"k": "pset", "s": v >> 4, "v": v >> 9})
 
@@ -245,7 +246,7 @@ def execute(case):
             ai = op.get("a", 0) % len(actors)
             a = actors[ai]
             if k == "mutate":
-                label = mutate(a["obj"], op)
+                label = mutate(a["obj"], op, case.get("layout", 1))
                 snap, b = obj_digest(a["obj"])
                 changed = snap != a["snap"] or b != a["bytes"]
                 a["snap"], a["bytes"] = snap, b
@@ -377,7 +378,7 @@ def generate(seed, i, tier="quick"):
         else:
             ops.append({"k": "drop", "a": a})
     ops.append({"k": "construct_check", "kind": focus_kind, "t": focus_t})
-    return {"property": PROPERTY, "world": "actors", "ops": ops}
+    return {"property": PROPERTY, "world": "actors", "layout": 2, "ops": ops}
 
 
 def plan(tier, seed):
@@ -413,7 +414,7 @@ def run_unit(unit):
     acc = Acc()
     if unit["kind"] == "types":
         for ops in type_sweep_cases():
-            acc.run(execute, {"property": PROPERTY, "world": "actors", "ops": ops}, isolate=True, seconds=120)
+            acc.run(execute, {"property": PROPERTY, "world": "actors", "layout": 2, "ops": ops}, isolate=True, seconds=120)
         acc.probes["all_types_pairwise_sweep"] += 1
         return acc.to_dict()
     for i in range(unit["first"], unit["first"] + unit["count"]):
